@@ -55,6 +55,7 @@ type Exec struct {
 	topFrame *Frame
 	ghostLog []string
 	allocs   []allocRec
+	allocBound *Term // `allocates` clause of the function under verification (entry-state value), or nil
 	hasFrame bool
 	assumed  map[int]bool
 	frameLocs []Loc
